@@ -329,7 +329,7 @@ def oracle(op, kinds, inputs):
 
 # ---------------------------------------------------------------- concrete evaluation of a summary
 def const_of(kind, bits_value):
-    if kind in ("Nil", "Str"):
+    if unheap(kind) in ("Nil", "Str"):
         return z3.BitVecVal(0, 8)        # no numeric payload: the input slot is a dummy
     ty = KTY[base_kind(kind)]
     if ty == "f64":
@@ -415,7 +415,20 @@ for _k in ("Int", "BigInt", "Float", "Byte", "Bool"):
     BOUNDARY["Some" + _k] = BOUNDARY[_k]
 
 
+HEAP_KINDS = ["HeapNil", "HeapSomeInt", "HeapSomeFloat", "HeapInt", "HeapBool"]
+BOUNDARY["HeapNil"] = [0]
+for _k in ("HeapSomeInt", "HeapInt"):
+    BOUNDARY[_k] = BOUNDARY["Int"]
+BOUNDARY["HeapSomeFloat"] = BOUNDARY["Float"]
+BOUNDARY["HeapBool"] = BOUNDARY["Bool"]
+
+
+def unheap(kind):
+    return kind[4:] if kind.startswith("Heap") else kind
+
+
 def base_kind(kind):
+    kind = unheap(kind)
     return kind[4:] if kind.startswith("Some") else kind
 
 
@@ -424,13 +437,19 @@ def is_present(kind):
 
 
 def opt_payload(kind, name):
-    if kind == "Nil":
+    if unheap(kind) == "Nil":
         return Sc("u8", z3.BitVecVal(0, 8))      # no payload; a dummy so that every operand has an input slot
     return sym_payload(base_kind(kind), name)
 
 
 def opt_prim(cells, key, kind, payload):
-    """Primitive value for an operand kind incl. Nil / Some<K>; Some boxes its payload in a heap cell"""
+    """Primitive value for an operand kind incl. Nil / Some<K>; Some boxes its payload in a heap cell.  Heap<shape> is a
+    HeapPrimitive::Lookup reference to a variable cell holding the shape (what `get l[i]`, `get obj.f` leave on the stack)."""
+    if kind.startswith("Heap"):
+        inner = opt_prim(cells, key + ("inner",), unheap(kind), payload)
+        cells[key + ("var",)] = inner
+        pair = Adt("PrimitiveFlagsPair", None, [Ref(key + ("var",))])
+        return Adt("Primitive", "HeapPrimitive", [Adt("HeapPrimitive", "Lookup", [pair])])
     if kind == "Nil":
         return Adt("Primitive", "Optional", [Adt("Option", "None", [])])
     if kind.startswith("Some"):
@@ -444,6 +463,11 @@ def decode_prim(cells, p):
     """-> (kind name incl. Nil/Some<K>, payload Sc or None) of a Primitive value found after execution"""
     if not (isinstance(p, Adt) and p.ty == "Primitive"):
         raise Inconclusive("expected a Primitive, got %r" % (p,))
+    if p.variant == "HeapPrimitive":
+        hp = p.fields[0]
+        ref = hp.fields[0].fields[0]
+        k, v = decode_prim(cells, cells[ref.cell])
+        return "Heap" + k, v
     if p.variant != "Optional":
         return p.variant, p.fields[0]
     o = p.fields[0]
